@@ -8,14 +8,18 @@ Three legs on every run (DESIGN 3.3):
                     abstract machine of C03_preserve_goto_partial, drv_c03 execg) vs both on EVERYTHING (goto, goto *&&L,
                     Duff's device); the model's own machine on the model's code (drv_c03 mrun) vs chibicc on everything;
   (c) scoping       generated shadowing programs; which declaration each use bound to: scope model vs chibicc vs gcc.
+  (fun) whole functions of the integer fragment (checklib/C03fun.py; theorem C03_function_correct_partial = C03's statements over
+                    C01's expressions): compileFn's text == `chibicc -S` (instructions, labels, jump targets, counters); abstract
+                    machine execF == model machine runF on the model code == compiled program == gcc.
 """
 import os, sys, json, hashlib, itertools, shutil
 from .framework import *
+from . import C03fun
 
 PROPERTY = 'C03'
-GEN_MODULES = []
-LEAN_TARGETS = ['ChibiVerif.Props.C03', 'ChibiVerif.Findings.C03']
-PROPS_FILES = ['ChibiVerif/Props/C03.lean']
+GEN_MODULES = ['commontype', 'casttable']     # the tables C01's compileJ (the expression holes of Model/C03Fun) is built on
+LEAN_TARGETS = ['ChibiVerif.Props.C03', 'ChibiVerif.Props.C03Fun', 'ChibiVerif.Findings.C03']
+PROPS_FILES = ['ChibiVerif/Props/C03.lean', 'ChibiVerif/Props/C03Fun.lean']
 NEEDS_HOOKS = False
 TRUSTED_BASE = [
     'Lean 4.33.0 kernel; axioms admitted: propext, Classical.choice, Quot.sound (audited per theorem on every run)',
@@ -29,7 +33,13 @@ TRUSTED_BASE = [
     'model and checked only behaviourally against gcc',
     'per-scope tables are association lists: justified by C17 (Lemmas/ScopeLemmas.lean proves the chain of hashmap.c tables '
     'refines the chain of dictionaries)',
-    'tools/harness/c03_harness.c, the generators and the comparison in checklib/C03.py; gcc 12 -O0 is the reference compiler, '
+    'Model/C03Fun.lean (whole functions of the integer fragment: FStmt, the abstract machine execF = the big-step machine of '
+    'Spec/ControlSpec with Spec/IntSpec evalE for the oracle, compileF = gen_stmt with C01\'s compileJ in every expression hole, '
+    'the label machine runF = Model/X86Jump with the statement-level label families, proved equal to it: C03_function_machine); '
+    'tied on every run by exact text equality with `chibicc -S` on generated functions (instructions, labels, jump targets, the '
+    'three counters, frame layout) and by running execF, runF on the model code, the chibicc-built and the gcc-built program; '
+    'inherits the trusted base of C01 for expressions (Spec/IntSpec, Model/X86, Model/C01Expr*, regenerated cast / common-type tables)',
+    'tools/harness/c03_harness.c, the generators and the comparison in checklib/C03.py, checklib/C03fun.py; gcc 12 -O0 is the reference compiler, '
     'clang-14 -O0 arbitrates when chibicc and gcc differ (a difference counts against chibicc only if it differs from every '
     'reference that ran; gcc-vs-clang disagreements are recorded in the evidence)',
 ]
@@ -1369,6 +1379,7 @@ class ScopeProg:
         self.tagkind = {}
         self.names = list(rng.choice(NAME_FAMILIES))
         self.stack = [{'var': set(), 'tag': set()}]
+        self.env = [{}]        # ordinary name space: name -> (kind, id) per scope, for point-of-declaration forms
 
     def nid(self):
         self.id += 1
@@ -1389,6 +1400,21 @@ class ScopeProg:
         n = rng.choice(free)
         i = self.nid()
         self.stack[-1][ns].add(n)
+        # point of declaration (C11 6.2.1p7): an enumerator is in scope only AFTER its own definition, so the same name
+        # inside its initializer still denotes the outer declaration
+        outer = None
+        if ns == 'var':
+            for sc in reversed(self.env):
+                if n in sc:
+                    outer = sc[n]
+                    break
+            self.env[-1][n] = (kind, i)
+        if kind == 'enum' and outer and outer[0] in ('enum', 'typedef') and rng.random() < 0.6:
+            ok, oi = outer
+            ref = n if ok == 'enum' else f'(int)sizeof({n})'
+            self.emit(f'enum {{ {n} = {ref} + ({i - oi}) }};', ind)
+            self.ops.append(f'enum {n} {i}')
+            return
         if kind == 'var':
             st = rng.choice(['', '', 'static '])
             self.emit(f'{st}int {n} = {i};', ind)
@@ -1407,10 +1433,12 @@ class ScopeProg:
 
     def enter(self):
         self.stack.append({'var': set(), 'tag': set()})
+        self.env.append({})
         self.ops.append('enter')
 
     def leave(self):
         self.stack.pop()
+        self.env.pop()
         self.ops.append('leave')
 
     def uses(self, ind, names=None):
@@ -1437,6 +1465,7 @@ class ScopeProg:
                 n = rng.choice(self.names)
                 i = self.nid()
                 self.stack[-1]['var'].add(n)
+                self.env[-1][n] = ('var', i)
                 self.ops.append(f'var {n} {i}')
                 once = f'o{i}'
                 if rng.random() < 0.7:
@@ -1647,7 +1676,13 @@ def correspond(ctx, corr):
                  'function, one a prefix of the other, reached by goto and through &&name) vs the scope model and gcc; label names of the '
                  'nests spelled by one of 5 injective naming schemes (prefix chains in both orders, names of functions).  (d) source pins: '
                  'resolve_goto_labels, get_ident, the goto / labeled-statement / &&label arms of parse.c.  '
-                 'non-trivial = nest of depth >= 3 with >= 3 statement forms / run with >= 4 events / scope program with >= 6 bound uses; '
+                 '(fun) generated functions of the integer fragment (if/else, while, for(init;c;inc), do-while, switch/case/default with constants at the '
+                 'bounds of the promoted controlling type, break, continue, return over '
+                 'C01 expressions incl. && || ?: = op= ++ --, loops nested to depth 3): compileFn text == chibicc -S text, label and '
+                 'unique-name counters, temporaries, layoutOK, freshness; execF == runF(model code) == chibicc binary == gcc binary on '
+                 'conflict-free functions without undefined behaviour.  '
+                 'non-trivial = nest of depth >= 3 with >= 3 statement forms / run with >= 4 events / scope program with >= 6 bound uses / '
+                 'fragment function with a loop and > 60 instructions; '
                  'distinct by text.')
     pins_ok = source_pins(ctx, corr)
     if not corpus_run(ctx, corr):
@@ -1665,6 +1700,9 @@ def correspond(ctx, corr):
         if not expr_batch(ctx, corr, f'e{bi}', 24):
             return
     scope_batch(ctx, corr, 25 if not ctx.thorough else 400)
+    for bi in range(2 if not ctx.thorough else 30):
+        if not C03fun.fun_leg(ctx, corr, 40, tag=f'fun{bi}'):
+            return
 
 
 def search(ctx, broken, corr):
@@ -1675,6 +1713,10 @@ def search(ctx, broken, corr):
     jump_battery(ctx, c2, search=True)
     if c2.violations:
         return c2.violations[0]
+    for bi in range(4):
+        C03fun.fun_leg(ctx, c2, 60, tag=f'sfun{bi}', search=True)
+        if c2.violations:
+            return c2.violations[0]
     scope_batch(ctx, c2, 60)
     if c2.violations:
         return c2.violations[0]
@@ -1735,14 +1777,29 @@ MANIFEST = {
                   'that satisfies the language constraints), C03_execG_structured (the two abstract machines agree on structured nests), C03_label_binds (every goto / &&label node '
                   'receives the unique label of a labelled statement of exactly its own name in the same function; an undefined name is a '
                   'diagnostic; tied by a source pin of resolve_goto_labels and the three places that record label names, and by generated '
-                  'programs whose label / object / typedef / tag / enumerator names are proper prefixes of one another).  Tied on every run by exact skeleton-text comparison with chibicc -S and by '
+                  'programs whose label / object / typedef / tag / enumerator names are proper prefixes of one another); and the COMPOSITION '
+                  'with C01: C03_function_correct_partial (a function body of expression statements, blocks, if/else, while, for(init;c;inc), '
+                  'do-while, switch with case / default labels (fall-through, default anywhere, constants negative or above 32 bits, compare '
+                  'ladder on the X86 model), break, continue, return over the integer expressions of C01 - all operators, && || ?: , = op= ++ -- on locals '
+                  '- compiled as chibicc compiles it, runs on the label machine from the first line of the body to .L.return with %rax '
+                  'representing the C11 value of the returned expression and the frame holding the final store, for every such function, '
+                  'every initial store and every terminating execution of the C11 abstract machine), C03_function_labels_fresh (every '
+                  'label of a function defined once: one count() for statements and expressions, new_unique_name() for break/continue/case), '
+                  'C03_function_fuel_irrelevant (the outcome of the abstract machine does not depend on the fuel), '
+                  'C03_function_machine (the machine is C01\'s label machine).  Tied on every run by exact skeleton-text comparison with chibicc -S and by '
                   'trace comparison of compiled programs against gcc and the Lean spec; scoping against generated shadowing programs.',
     'level_note': 'C03_switch_select has the explicit hypothesis "lo <= hi in the controlling type" (the property\'s own wording). '
                   'Preservation is proved for all statement forms (goto, computed goto, Duff-style case labels included) under the explicit '
                   'decidable hypotheses validG (case ranges non-empty and disjoint in the controlling type, at most one default, jump '
                   'targets defined once: constraint violations have no meaning) and code size < 2^64 when a computed goto occurs; the '
                   'literal C03_preserve_Statement (exact fuel equality with Spec.exec, no hypotheses) stays open.  && || ?: , and statement '
-                  'expressions are covered by differential execution against gcc only.  Calls and casts are abstracted in the skeleton (C06/C01).',
+                  'expressions are covered by differential execution against gcc only in the statement-level theorems; in '
+                  'C03_function_correct_partial they are inside the theorem.  Calls and casts are abstracted in the skeleton (C06/C01).  '
+                  'C03_function_correct_partial covers neither goto / labels, GNU case ranges, switch bodies that are not a list of statements each '
+                  'labelled at most once at its head (Duff; the code model covers them and is tied by text), nor calls, parameter passing, '
+                  'prologue / epilogue, non-integer types, pointers, globals, nor diverging or undefined executions; its hypotheses are '
+                  'decidable (compileFn succeeds, every full expression conflict-free) plus the frame invariant FrameX the check validates '
+                  'on chibicc\'s real offsets (layoutOK).',
     'technique': 'Lean 4: refinement + backward-history specification (scopes), structural induction with the parser state as invariant '
                  '(binding, labels), bit-vector reasoning (switch ladder), forward simulation with code-at-pc invariants (preservation); '
                  'text and trace correspondence with the real compiler',
